@@ -18,7 +18,8 @@ What they exclude is exactly what the code gets wrong (or what needs context):
   `String` one `char` per byte (`value as char`), so the *same `String`* comes back only for
   ASCII names (`NameAscii`); `SpecNameOk` / `LibNameOk` are the conditions for names written
   *raw* (the writer before that commit; content-stream operands, C30);
-* literal strings with a CR for the independent reader (CR is emitted raw, read as LF);
+* (literal strings: nothing any more — CR is written `\r` since the CR repair; before, a raw CR
+  was read as LF by the independent reader: `NoCR`, `escapePdfStringRawCR`);
 * an integer that the *following bytes* turn into an indirect reference
   (`Spec.refAhead` / the library's `Integer Integer R` look-ahead, which also takes the name `/R`);
 * numbers whose token the library cannot read (`i64` overflow, non-decimal tokens).
@@ -133,7 +134,7 @@ def SafeSpec : Obj → List Nat → Bool
   | .real t, rest =>
     IsDecTok (trimReal t) && specEnds rest &&
       (!Spec.Syntax.allDigits (trimReal t) || (Spec.Syntax.refAhead rest).isNone)
-  | .str s, _ => NoCR s
+  | .str _, _ => true
   | .hexstr bs, _ => allB (fun b => b < 256) bs
   | .name n, rest => NameBytes n && specEnds rest
   | .ref _ _, rest => specEnds rest
